@@ -14,7 +14,7 @@ def cfgNow : Cfg :=
   { chanCap := Generated.C10.weChanCap
     dropOnCreate := Generated.C10.createDropsCache
     dropOnDelete := Generated.C10.deleteDropsCache
-    applyFilter := decide (0 < Generated.C10.fltFUseSites)
+    applyFilter := Generated.C10.filterAppliedBySourceIterator
     rearm := Generated.C10.workerDoneRearms }
 
 /-- structural facts the shape of the model relies on (each is re-read from the source on every run) -/
@@ -48,22 +48,57 @@ theorem provenance_only_appends (prov : Bytes) (e : Ev) :
     (addProv prov e).ts = e.ts ∧ (addProv prov e).msg = e.msg ∧ (addProv prov e).fields = e.fields ++ prov := by
   simp [addProv]
 
-/-- the copy invariant in the words of the property for the code as it is now (no filter is applied) and a worker
-that is not between its write and its `saveState`: the pipe holds, of source `s`, exactly records `[start, Pos)`. -/
+/-- the copy invariant in the words of the property for the code as it is now (the pipe's source iterator applies
+the filter — repair f08ebbf of finding F09) and a worker that is not between its write and its `saveState`: the pipe
+holds, of source `s`, exactly the records of `[start, Pos)` **for which the filter is true**, once, in stored order. -/
 theorem pipe_copy_exactly_once_in_order (n : Nat) (l : Nat → Bool) (p : Nat → Bytes) (f : Ev → Bool) (o : Bool)
     (ls : List Label) (s : Nat) (d : Desc) :
     let st := run cfgNow (init n l p f o) ls
     (st.srcs s).desc = some d → (∀ c, (st.srcs s).wk ≠ .written c) →
-    proj s st.dest = (slice (st.srcs s).log d.start d.pos).map (addProv (st.srcs s).prov) := by
+    proj s st.dest = ((slice (st.srcs s).log d.start d.pos).filter st.flt).map (addProv (st.srcs s).prov) := by
   intro st hd hw
   have h := ((pipe_copy_inv n l p f o ls s).2 d hd).2.2.2
   have hc : curOf (st.srcs s) d = d.pos := by
     unfold curOf; split
     · rename_i c hc; exact absurd hc (hw c)
     · rfl
-  have hf : cfgNow.applyFilter = false := by decide
+  have hf : cfgNow.applyFilter = true := by decide
   rw [hc] at h
   simpa [sel, hf] using h
+
+/-- **Only accepted events are copied** (F09 repaired): every event the pipe partition holds of source `s` is a
+stored event of `s` that satisfies the filter, with the provenance appended. -/
+theorem pipe_copies_only_accepted (n : Nat) (l : Nat → Bool) (p : Nat → Bytes) (f : Ev → Bool) (o : Bool)
+    (ls : List Label) (s : Nat) (e : Ev) :
+    let st := run cfgNow (init n l p f o) ls
+    e ∈ proj s st.dest → ∃ e0, e0 ∈ (st.srcs s).log ∧ st.flt e0 = true ∧ e = addProv (st.srcs s).prov e0 := by
+  intro st he
+  have hf : cfgNow.applyFilter = true := by decide
+  cases hd : (st.srcs s).desc with
+  | none =>
+    have := (pipe_copy_inv n l p f o ls s).1 hd
+    rw [this] at he; cases he
+  | some d =>
+    have h := ((pipe_copy_inv n l p f o ls s).2 d hd).2.2.2
+    rw [h] at he
+    simp only [sel, hf, if_true, List.mem_map, List.mem_filter] at he
+    obtain ⟨e0, ⟨hm, hflt⟩, rfl⟩ := he
+    refine ⟨e0, ?_, hflt, rfl⟩
+    unfold slice at hm
+    exact List.mem_of_mem_drop (List.mem_of_mem_take hm)
+
+/-- **The saved position passes rejected events**: a copy step moves the worker's cursor over everything it saw —
+`min (c + k) (stored)` — whatever the filter let through, and the following `saveState` stores that position. So a run
+of rejected events at the end of a source is read once, not again at every wake-up or after a restart. -/
+theorem position_passes_rejected (st : State) (s k c : Nat) (hwk : (st.srcs s).wk = .opened c)
+    (hlive : st.pipe = .live) (hcl : st.closed = false) :
+    ∃ st', step cfgNow st (.wcopy s k) = some st' ∧ (st'.srcs s).wk = .written (min (c + k) (st.srcs s).log.length) := by
+  have hs : step cfgNow st (.wcopy s k) = some
+      { st with dest := st.dest ++ (sel cfgNow st.flt (slice (st.srcs s).log c (min (c + k) (st.srcs s).log.length))).map
+                  (fun e => (s, addProv (st.srcs s).prov e)),
+                srcs := upd st.srcs s { st.srcs s with wk := .written (min (c + k) (st.srcs s).log.length) } } := by
+    simp [step, hwk, hlive, hcl]
+  exact ⟨_, hs, by simp⟩
 
 /-- **No stranded data** (also the pipe clause of C11): after every step, a descriptor whose `Pos` is behind
 `LastKnwnPos` has a charged worker — unless the service is shutting down, or the descriptor was loaded by a restart
@@ -169,26 +204,25 @@ theorem delete_stops_forever (st : State) (ls : List Label) (hdel : st.pipe = .d
 
 /-- The property at full strength: in every reachable quiescent state of a running service, the pipe partition
 holds for every source exactly the events written to it after the pipe's creation that satisfy `S` and `F`,
-provenance appended, once, in stored order. **False for the code as it is** — see the two counterexamples. -/
+provenance appended, once, in stored order. **False for the code as it is** — see the counterexamples (racing first writes, F10; a notification lost at shutdown); the filter clause holds since the repair of F09. -/
 def C10_full : Prop :=
   ∀ (n : Nat) (l : Nat → Bool) (p : Nat → Bytes) (f : Ev → Bool) (o : Bool) (ls : List Label) (s : Nat),
     let st := run cfgNow (init n l p f o) ls
     quiescent st = true → st.closed = false → st.pipe = .live → proj s st.dest = specProj st s
 
-/-- **Partial**: the specification holds for a source under three explicit hypotheses — `F` is true on every stored
-event of the source (class of F09: the filter is never applied), the descriptor started at the pipe's creation point
-(class of F10: the first *notified* batch defines the start) and the last processed notification is that of the last
-write (notifications not overtaken; a restart not from a non-quiescent stop). -/
+/-- **Partial**: the specification — *including the filter* — holds for a source under two explicit hypotheses: the
+descriptor started at the pipe's creation point (class of F10: the first *notified* batch defines the start) and the last
+processed notification is that of the last write (notifications not overtaken; no restart from a non-quiescent stop).
+The hypothesis "F is true on the source" of the earlier version is gone with the repair of F09. -/
 theorem pipe_spec_partial (n : Nat) (l : Nat → Bool) (p : Nat → Bytes) (f : Ev → Bool) (o : Bool) (ls : List Label)
     (s : Nat) (d : Desc) :
     let st := run cfgNow (init n l p f o) ls
     quiescent st = true → st.closed = false → s < st.n →
     (st.srcs s).desc = some d → (st.srcs s).listens = true →
-    (∀ e, e ∈ (st.srcs s).log → st.flt e = true) →
     d.start = (st.srcs s).createdAt →
     d.lastKnown = (st.srcs s).log.length → d.stale = false →
     proj s st.dest = specProj st s := by
-  intro st hq hcl hsn hd hl hF hstart hlk hst
+  intro st hq hcl hsn hd hl hstart hlk hst
   have hg : GInv cfgNow st := run_ginv cfgNow _ ls (ginv_init cfgNow n l p f o)
   obtain ⟨a1, a2, a3, a4, _, _, _, _⟩ := (hg.1 s).2 d hd
   have hidle : (st.srcs s).wk = .none := by
@@ -211,10 +245,6 @@ theorem pipe_spec_partial (n : Nat) (l : Nat → Bool) (p : Nat → Bytes) (f : 
     unfold slice; rw [hstart, hpos]
     apply List.take_of_length_le; simp
   rw [hsl]
-  have hfil : ((st.srcs s).log.drop (st.srcs s).createdAt).filter st.flt = (st.srcs s).log.drop (st.srcs s).createdAt := by
-    apply List.filter_eq_self.mpr
-    intro e he; exact hF e (List.mem_of_mem_drop he)
-  rw [hfil]
 
 /-! ### counterexamples (kernel-evaluated runs of the model configured as the code is now) -/
 
@@ -227,12 +257,26 @@ def prov0 : Bytes := [1, 120, 1, 49]
 /-- the whole life of one batch: write, publish, notify, worker opens, copies, saves, times out, is done -/
 def copyCycle : List Label := [.wopen 0, .wcopy 0 100, .wsave 0, .wtimeout 0, .wdone 0]
 
-/-- **F09**: a pipe with filter `msg != "a"`; the source receives an event with message `a` after the creation.
-The run ends quiescent and the pipe partition holds the event the filter rejects. -/
-theorem cex_filter_ignored :
+/-- **F09 repaired** (regression witness, formerly `cex_filter_ignored`): a pipe with filter `msg != "a"`; the source
+receives an event with message `a` and one with `b` after the creation. The run ends quiescent and the pipe partition
+holds exactly what the specification demands — the event the filter accepts; the saved position is past both. -/
+theorem filter_applied_witness :
     let st := run cfgNow (init 1 (fun _ => true) (fun _ => prov0) fltNotA false)
       ([.create, .write 0 [evA, evB], .enqueue 0, .notify] ++ copyCycle)
-    quiescent st = true ∧ proj 0 st.dest = [addProv prov0 evA, addProv prov0 evB] ∧ specProj st 0 = [addProv prov0 evB] := by
+    quiescent st = true ∧ proj 0 st.dest = [addProv prov0 evB] ∧ specProj st 0 = [addProv prov0 evB] ∧
+      (st.srcs 0).desc.map (·.pos) = some 2 := by
+  decide
+
+/-- a run of rejected events at the end of the source, a clean restart, more rejected events, then an accepted one:
+nothing is copied until the accepted event, which arrives once; the position follows the stored count throughout. -/
+theorem rejected_tail_witness :
+    let st1 := run cfgNow (init 1 (fun _ => true) (fun _ => prov0) fltNotA false)
+      ([.create, .write 0 [evA, evA, evA], .enqueue 0, .notify] ++ copyCycle)
+    let st2 := run cfgNow st1 ([.shutdown, .halt, .restart, .write 0 [evA, evA], .enqueue 0, .notify] ++ copyCycle)
+    let st3 := run cfgNow st2 ([.write 0 [evB], .enqueue 0, .notify] ++ copyCycle)
+    (st1.dest = [] ∧ (st1.srcs 0).desc.map (·.pos) = some 3) ∧
+    (st2.dest = [] ∧ (st2.srcs 0).desc.map (·.pos) = some 5) ∧
+    (st3.dest = [(0, addProv prov0 evB)] ∧ (st3.srcs 0).desc.map (·.pos) = some 6 ∧ proj 0 st3.dest = specProj st3 0) := by
   decide
 
 /-- **F10**: two writers' first batches to a new source; the second writer's notification is published first.
@@ -253,9 +297,9 @@ theorem cex_notification_lost_at_shutdown :
 
 theorem c10_full_false : ¬ C10_full := by
   intro h
-  have h1 := h 1 (fun _ => true) (fun _ => prov0) fltNotA false
-    ([.create, .write 0 [evA, evB], .enqueue 0, .notify] ++ copyCycle) 0
-  obtain ⟨c1, c2, c3⟩ := cex_filter_ignored
+  have h1 := h 1 (fun _ => true) (fun _ => prov0) (fun _ => true) false
+    ([.create, .write 0 [evA], .write 0 [evB], .enqueue 1, .enqueue 0, .notify, .notify] ++ copyCycle) 0
+  obtain ⟨c1, c2, c3⟩ := cex_first_notification_reordered
   have := h1 c1 (by decide) (by decide)
   rw [c2, c3] at this
   exact absurd this (by decide)
